@@ -562,13 +562,16 @@ def record_traces(job):
                 if r is None:
                     stats['run-too-long'] += 1
                     continue
-                runs.append({'prog': len(progs), 'ev': r['ev'], 'ret': r['ret'], 'exc': r['exc'], 'mut': r['mut'], 'args': repr(args)[:300], 'ctx': str(ctx)[:80]})
+                runs.append({'prog': len(progs), 'ev': r['ev'], 'ret': r['ret'], 'exc': r['exc'], 'mut': r['mut'], 'cx0': r['cx0'], 'args': repr(args)[:300], 'ctx': str(ctx)[:80]})
                 nrun += 1
             stats['facts_attached_traced'] += si['nfacts']
             progs.append(si)
     finally:
         shutil.rmtree(work, ignore_errors=True)
     return progs, runs, stats
+
+
+CTX_CLAUSES = ('active-context-is-not-that-of-the-enclosing-scope', 'with-target-is-not-the-active-context')
 
 
 FACT_CLAUSES = ('read-observes-a-definition-not-listed-as-reaching', 'value-does-not-have-the-inferred-type',
@@ -621,9 +624,11 @@ def run(tier: str) -> int:
             r_['tid'] = len(truns)
             truns.append(r_)
     if truns:
-        tout = linetrace.validate([{k: r_[k] for k in ('tid', 'pid', 'ev', 'ret', 'exc', 'mut')} for r_ in truns], tprogs)
+        tout = linetrace.validate([{k: r_[k] for k in ('tid', 'pid', 'ev', 'ret', 'exc', 'mut', 'cx0')} for r_ in truns], tprogs)
         rep.add_tlc(tout.generated, tout.distinct)
         for (tid, clause, what) in tout.mismatches:
+            if clause in CTX_CLAUSES:
+                continue        # the context discipline of the run itself is C04's matter (same traces, reported there)
             r_ = truns[tid]
             p = tprogs[r_['pid'] - 1]
             rep.mismatch({'clause': clause}, {'program': p['src'], 'args': r_['args'], 'ctx': r_['ctx'], 'clause': clause, 'where': what,
